@@ -448,6 +448,13 @@ def run(ctx):
              'containers are deleted only when found empty afterwards',
              floor=2)
     r7_leave_exact(ctx)
+    ctx.rule('C04.R4', 'a refused connection keeps no membership (it would '
+             'go on receiving broadcasts): refusal packet then release on '
+             'every refusing path of _handle_connect, for both settings of '
+             'always_connect (shared rule)', floor=20)
+    from .c04 import r4_connect
+    for fam in SA:
+        r4_connect(ctx, fam)
     ctx.assume('bidict keeps sid <-> transport id one-to-one (trusted)')
     ctx.assume('the exact recipient set over all membership histories is '
                'NOT decided')
